@@ -72,6 +72,12 @@ def r2(ctx, rep, res=None):
             continue
         m = meta[o["id"]]
         key = (m["rule"], m["first"], m["second"])
+        if key not in table and (res.get("predicates_dropped") or "negpred" in key[1] + key[2] or "pospred" in key[1] + key[2]):
+            # the model drops lookahead predicates it cannot express (over-approximation): a common prefix found then may not exist
+            rep.unrecognised("C06-R2", "choice|%s|%s|%s" % key, where, "in rule `%s` the alternatives `%s` and `%s` may share a prefix (e.g. `%s`), but the "
+                             "grammar uses a lookahead predicate the model over-approximates: the overlap may not be real" % (
+                                 key[0], key[1], key[2], GM.show_witness(o["witness"] or [])))
+            continue
         rep.check(key in table, "C06-R2", "choice|%s|%s|%s" % key, where, "listed hazard (safe in this order)",
                   "in rule `%s` the alternative `%s` is tried before `%s` and both can match a prefix of one input (e.g. `%s`): the "
                   "earlier one shadows sentences that need the later one" % (key[0], key[1], key[2], GM.show_witness(o["witness"] or [])))
